@@ -29,6 +29,10 @@ var plainCodecs = []plainCodec{
 		func(s *astisub.Subtitles, w *bytes.Buffer) error { return s.WriteToWebVTT(w) }},
 }
 
+// pairs (source->destination) excluded from the byte comparison, with the exact reason (set next to the codec that
+// causes it, in harness/plain_<fmt>.go)
+var plainSkipPairs = map[string]string{}
+
 func encPlainOf(s *astisub.Subtitles) string {
 	e := (&enc{}).n(0).n(len(s.Items))
 	for _, it := range s.Items {
@@ -87,6 +91,10 @@ func suiteConvertPlain(R *runner, r *rng) {
 				continue
 			}
 			for _, dst := range plainCodecs {
+				if _, skip := plainSkipPairs[src.name+"->"+dst.name]; skip {
+					R.count("plain.restricted." + src.name + "->" + dst.name)
+					continue
+				}
 				s2, _ := src.read(doc)
 				var out bytes.Buffer
 				o := &obs{Suite: "convplain", Group: "plain." + src.name + "->" + dst.name, Input: (&enc{}).n(src.code).n(dst.code).bytes(doc).String(), NT: true,
